@@ -72,11 +72,14 @@ def val_score_spy(on_call):
 
 
 def rows_to_indices(full, rows):
-    """Positions in `full` of the rows of a batch (rows of `full` must be unique)."""
+    """Positions in `full` of the rows of a batch; None if a row is not a row of `full`, "ambiguous" if the rows of
+    `full` are not unique (e.g. a cosine kernel of one-dimensional data)."""
     idx = []
     for r in np.atleast_2d(rows):
         hits = np.where((full == r).all(axis=1))[0]
-        if len(hits) != 1:
+        if len(hits) == 0:
             return None
+        if len(hits) > 1:
+            return "ambiguous"
         idx.append(int(hits[0]))
     return idx
